@@ -751,6 +751,10 @@ class CSemantics:
         # But is this correct?
         mid = self.pointer(mid)
         rhs = self.pointer(rhs)
+        if mid.typ.is_scalar and rhs.typ.is_scalar:
+            # Usual arithmatic conversions apply:
+            mid = self.promote(mid)
+            rhs = self.promote(rhs)
         common_type = self.get_common_type(mid.typ, rhs.typ, location)
         mid = self.coerce(mid, common_type)
         rhs = self.coerce(rhs, common_type)
@@ -862,13 +866,26 @@ class CSemantics:
             if not (rhs.typ.is_scalar or rhs.typ.is_pointer):
                 self.error("Expected scalar or pointer", rhs.location)
 
+            if lhs.typ.is_scalar and rhs.typ.is_scalar:
+                # Usual arithmatic conversions apply:
+                lhs = self.promote(lhs)
+                rhs = self.promote(rhs)
             common_typ = self.get_common_type(lhs.typ, rhs.typ, location)
             lhs = self.coerce(lhs, common_typ)
             rhs = self.coerce(rhs, common_typ)
 
             # Booleans are integer type:
             result_typ = self.int_type
-        elif op in ["<<", ">>", "|", "&", "^"]:  # Bit shifting operators
+        elif op in ["<<", ">>"]:  # Bit shifting operators
+            self.ensure_integer(lhs)
+            self.ensure_integer(rhs)
+
+            # The result has the type of the promoted left operand,
+            # the type of the shift amount does not matter:
+            lhs = self.promote(lhs)
+            result_typ = lhs.typ
+            rhs = self.coerce(rhs, result_typ)
+        elif op in ["|", "&", "^"]:  # Bitwise operators
             self.ensure_integer(lhs)
             self.ensure_integer(rhs)
 
@@ -910,14 +927,15 @@ class CSemantics:
 
             expr = expressions.UnaryOperator(op, a, a.typ, False, location)
         elif op == "-":
-            a = self.pointer(a)
+            a = self.promote(self.pointer(a))
             expr = expressions.UnaryOperator(op, a, a.typ, False, location)
         elif op == "~":
             a = self.pointer(a)
             self.ensure_integer(a)
+            a = self.promote(a)
             expr = expressions.UnaryOperator(op, a, a.typ, False, location)
         elif op == "+":
-            expr = self.pointer(a)
+            expr = self.promote(self.pointer(a))
         elif op == "*":
             a = self.pointer(a)
             if not a.typ.is_pointer:
